@@ -13,11 +13,13 @@ EXTENDS SqlModel, TraceKit
 
 VARIABLES l, viol,
           hadCrash,   \* a crash-style stop happened in this database's history
-          hasBtree    \* some table of this database has a B-tree indexed column
-tvars == <<svars, l, viol, hadCrash, hasBtree>>
-hvars == <<hadCrash, hasBtree>>
+          hasBtree,   \* some table of this database has a B-tree indexed column
+          bt          \* bookkeeping for KF-C17-btree-ffff-stopper: [meta, big, many]
+tvars == <<svars, l, viol, hadCrash, hasBtree, bt>>
+hvars == <<hadCrash, hasBtree, bt>>
 
 Tag(e, suffix) == e.ctx \o suffix
+IsRangeTag(tag) == Len(tag) >= 6 /\ SubSeq(tag, Len(tag) - 5, Len(tag)) = ".range"
 V(tag, ln, info) == <<[tag |-> tag, line |-> ln, info |-> info, kf |-> "new"]>>
 VK(tag, ln, info, kf) == <<[tag |-> tag, line |-> ln, info |-> info, kf |-> kf]>>
 
@@ -30,6 +32,38 @@ ReopenCheck(e, ln) ==
   ELSE IF hadCrash /\ hasBtree /\ ln > 1 /\ TraceLog[ln - 1].ev = "Shutdown"
     THEN VK(Tag(e, ".fail"), ln, <<e.ev, e.res>>, "KF-C10-btree-reattach-after-crash")
     ELSE V(Tag(e, ".fail"), ln, <<e.ev, e.res>>)
+
+(* Known finding KF-C17-btree-ffff-stopper: the embedded B-link tree ends every level with the 2-byte stopper key *)
+(* ff ff, taken to be larger than any key; the order-preserving encoding of an integer >= 2147418112 starts with    *)
+(* ff ff and is longer, so it compares GREATER than the stopper.  Once the right-most leaf holding such keys splits, *)
+(* the fence keys of the parent are mis-ordered and entries are filed in / looked up from the wrong leaf: index     *)
+(* lookups miss rows, ordered scans return keys out of order.  Signature: the table has a B-tree index on an        *)
+(* integer column, a value whose key starts with ff ff (ranks e.ff of the Create event) was written to that column,  *)
+(* and the table has held >= 100 rows (one leaf page holds more than 100 entries, so smaller tables never split).   *)
+BtInit == [meta |-> <<>>, big |-> {}, many |-> {}]
+BtCreate(e) ==
+  IF Has(e, "kinds") /\ Has(e, "ff")
+    THEN [bt EXCEPT !.meta = [x \in DOMAIN bt.meta \cup {e.t} |->
+             IF x = e.t THEN [cs |-> {i - 1 : i \in {j \in DOMAIN e.kinds : e.kinds[j] = "btree" /\ e.cols[j] = "int"}},
+                              ff |-> {e.ff[i] : i \in DOMAIN e.ff}]
+             ELSE bt.meta[x]]]
+    ELSE bt
+BtWrites(t, vals) ==   \* vals: set of <<column, rank>> written to table t
+  IF t \in DOMAIN bt.meta /\ \E w \in vals : w[1] \in bt.meta[t].cs /\ w[2] \in bt.meta[t].ff
+    THEN [bt EXCEPT !.big = @ \cup {t}] ELSE bt
+BtInsert(e) ==
+  LET b == BtWrites(e.t, {<<c - 1, e.rows[i][c]>> : i \in DOMAIN e.rows, c \in 1..(IF e.rows = <<>> THEN 0 ELSE Len(e.rows[1]))}) IN
+  IF HasTable(e.t) /\ Len(tables[e.t].rows) + Len(e.rows) >= 100 THEN [b EXCEPT !.many = @ \cup {e.t}] ELSE b
+BtUpdate(e) ==
+  IF HasTable(e.t) /\ \E i \in DOMAIN tables[e.t].rows : Holds(e.pred, tables[e.t].rows[i])
+    THEN BtWrites(e.t, {<<e.set[i][1], e.set[i][2]>> : i \in DOMAIN e.set}) ELSE bt
+BtKnown(t) == t \in bt.big /\ t \in bt.many
+(* violations of an event on such a table are attributed to the known finding (pin and plan clauses are not) *)
+Attr(vs, ts) ==
+  IF \E t \in ts : BtKnown(t)
+    THEN [i \in DOMAIN vs |-> IF vs[i].kf = "new" /\ vs[i].tag \notin {"C14.pins"} /\ ~IsRangeTag(vs[i].tag)
+                                 THEN [vs[i] EXCEPT !.kf = "KF-C17-btree-ffff-stopper"] ELSE vs[i]]
+    ELSE vs
 
 BadValue(rows) == \E i \in DOMAIN rows : \E j \in DOMAIN rows[i] : rows[i][j] = -99
 
@@ -44,10 +78,7 @@ FailCheck(e, ln) == IF e.res # "ok" /\ ~((Has(e, "intxn") \/ Has(e, "conflict"))
 
 Ordered(keys) == \A i \in 1..(Len(keys) - 1) : keys[i] <= keys[i + 1]
 InRange(v, lo, hi) == v # Null /\ (lo = -2 \/ v >= lo) /\ (hi = -2 \/ v <= hi)
-RangeRows(t, c, lo, hi) == LET r == tables[t].rows IN
-  [i \in 1..Cardinality({j \in DOMAIN r : InRange(r[j][c + 1], lo, hi)}) |->
-      r[CHOOSE j \in DOMAIN r : InRange(r[j][c + 1], lo, hi)
-            /\ Cardinality({k \in 1..j : InRange(r[k][c + 1], lo, hi)}) = i]]
+RangeRows(t, c, lo, hi) == SelectSeq(tables[t].rows, LAMBDA r : InRange(r[c + 1], lo, hi))
 
 SelectCheck(e, ln) ==
   IF e.res # "ok" \/ Has(e, "rejected") THEN <<>>
@@ -96,39 +127,42 @@ JoinCheck(e, ln) ==
        IF BagOfSeq(e.rows) # want THEN V(Tag(e, ".rows"), ln, [stmt |-> <<e.ts, e.on, e.filt, e.proj>>, plan |-> e.plan,
                                                              got |-> BagOfSeq(e.rows), want |-> want]) ELSE <<>>
 
-TInit == Init /\ l = 1 /\ viol = <<>> /\ hadCrash = FALSE /\ hasBtree = FALSE
+TInit == Init /\ l = 1 /\ viol = <<>> /\ hadCrash = FALSE /\ hasBtree = FALSE /\ bt = BtInit
 
 Ok(e) == e.res = "ok"
 
 TNext ==
   /\ l <= TraceLen
   /\ LET e == TraceLog[l] IN
-     CASE e.ev = "Reset" -> tables' = <<>> /\ snap' = <<>> /\ intxn' = FALSE /\ UNCHANGED viol /\ hadCrash' = FALSE /\ hasBtree' = FALSE
+     CASE e.ev = "Reset" -> tables' = <<>> /\ snap' = <<>> /\ intxn' = FALSE /\ UNCHANGED viol /\ hadCrash' = FALSE /\ hasBtree' = FALSE /\ bt' = BtInit
        [] e.ev = "Create" -> /\ (IF Ok(e) /\ ~HasTable(e.t) THEN Create(e.t, e.cols) ELSE Stutter)
                              /\ hasBtree' = (hasBtree \/ (Has(e, "kinds") /\ \E i \in DOMAIN e.kinds : e.kinds[i] = "btree")) /\ UNCHANGED hadCrash
+                             /\ bt' = BtCreate(e)
                              /\ viol' = AddViol(viol, FailCheck(e, l))   \* (CREATE pins its index header pages for good)
-       [] e.ev = "Insert" -> /\ UNCHANGED hvars
-                             /\ (IF HasTable(e.t) /\ Ok(e) THEN Insert(e.t, e.rows) ELSE Stutter)
-                             /\ viol' = AddViol(viol, FailCheck(e, l) \o PinCheck(e, l))
-       [] e.ev = "Update" -> /\ UNCHANGED hvars
+       [] e.ev = "Insert" -> /\ UNCHANGED <<hadCrash, hasBtree>> /\ bt' = BtInsert(e)
+                             /\ (IF HasTable(e.t) /\ Ok(e)
+                                   THEN IF Has(e, "other") /\ intxn THEN InsertByOther(e.t, e.rows) ELSE Insert(e.t, e.rows)
+                                   ELSE Stutter)
+                             /\ viol' = AddViol(viol, Attr(FailCheck(e, l), {e.t}) \o PinCheck(e, l))
+       [] e.ev = "Update" -> /\ UNCHANGED <<hadCrash, hasBtree>> /\ bt' = BtUpdate(e)
                              /\ (IF HasTable(e.t) /\ Ok(e) THEN Update(e.t, e.pred, e.set) ELSE Stutter)
-                             /\ viol' = AddViol(viol, FailCheck(e, l) \o RangePlanCheck(e, l) \o PinCheck(e, l))
+                             /\ viol' = AddViol(viol, Attr(FailCheck(e, l), {e.t}) \o RangePlanCheck(e, l) \o PinCheck(e, l))
        [] e.ev = "Delete" -> /\ UNCHANGED hvars
                              /\ (IF HasTable(e.t) /\ Ok(e) THEN Delete(e.t, e.pred) ELSE Stutter)
-                             /\ viol' = AddViol(viol, FailCheck(e, l) \o RangePlanCheck(e, l) \o PinCheck(e, l))
+                             /\ viol' = AddViol(viol, Attr(FailCheck(e, l), {e.t}) \o RangePlanCheck(e, l) \o PinCheck(e, l))
        [] e.ev = "Select" -> /\ UNCHANGED hvars
-                             /\ viol' = AddViol(viol, FailCheck(e, l) \o SelectCheck(e, l) \o RangePlanCheck(e, l) \o PinCheck(e, l))
+                             /\ viol' = AddViol(viol, Attr(FailCheck(e, l) \o SelectCheck(e, l), {e.t}) \o RangePlanCheck(e, l) \o PinCheck(e, l))
                              /\ IF Has(e, "sync") /\ Ok(e) /\ ~BadValue(e.rows) /\ ~SameBag(e.rows, tables[e.t].rows)
                                   THEN tables' = Put(e.t, [tables[e.t] EXCEPT !.rows = e.rows]) /\ UNCHANGED <<snap, intxn>>
                                   ELSE Stutter
-       [] e.ev = "IdxPoint" -> UNCHANGED hvars /\ Stutter /\ viol' = AddViol(viol, FailCheck(e, l) \o IdxPointCheck(e, l))
-       [] e.ev = "IdxRange" -> UNCHANGED hvars /\ Stutter /\ viol' = AddViol(viol, FailCheck(e, l) \o IdxRangeCheck(e, l))
-       [] e.ev = "Join" -> UNCHANGED hvars /\ Stutter /\ viol' = AddViol(viol, FailCheck(e, l) \o JoinCheck(e, l) \o PinCheck(e, l))
+       [] e.ev = "IdxPoint" -> UNCHANGED hvars /\ Stutter /\ viol' = AddViol(viol, Attr(FailCheck(e, l) \o IdxPointCheck(e, l), {e.t}))
+       [] e.ev = "IdxRange" -> UNCHANGED hvars /\ Stutter /\ viol' = AddViol(viol, Attr(FailCheck(e, l) \o IdxRangeCheck(e, l), {e.t}))
+       [] e.ev = "Join" -> UNCHANGED hvars /\ Stutter /\ viol' = AddViol(viol, Attr(FailCheck(e, l) \o JoinCheck(e, l), {e.ts[i] : i \in DOMAIN e.ts}) \o PinCheck(e, l))
        [] e.ev = "Begin" -> UNCHANGED hvars /\ (IF ~intxn THEN Begin ELSE Stutter) /\ viol' = AddViol(viol, FailCheck(e, l))
        [] e.ev = "Commit" -> UNCHANGED hvars /\ (IF intxn THEN Commit ELSE Stutter) /\ viol' = AddViol(viol, FailCheck(e, l) \o PinCheck(e, l))
        [] e.ev = "Abort" -> UNCHANGED hvars /\ (IF intxn THEN Abort ELSE Stutter) /\ viol' = AddViol(viol, FailCheck(e, l) \o PinCheck(e, l))
        [] e.ev \in {"Stats", "Shutdown"} -> Stutter /\ viol' = AddViol(viol, FailCheck(e, l)) /\ UNCHANGED hvars
-       [] e.ev = "Crash" -> Stutter /\ viol' = AddViol(viol, FailCheck(e, l)) /\ hadCrash' = TRUE /\ UNCHANGED hasBtree
+       [] e.ev = "Crash" -> Stutter /\ viol' = AddViol(viol, FailCheck(e, l)) /\ hadCrash' = TRUE /\ UNCHANGED <<hasBtree, bt>>
        [] e.ev = "Reopen" -> Stutter /\ viol' = AddViol(viol, ReopenCheck(e, l)) /\ UNCHANGED hvars
   /\ l' = l + 1
 
